@@ -217,6 +217,12 @@ fn handle(
                     if facts.max_lead == sc.queue {
                         rep.count("runs_where_lead_reached_queue_length");
                     }
+                    if facts.max_work_overlap >= 2 {
+                        rep.count("runs_with_overlapping_work_calls");
+                    }
+                    if sc.consumer == Consumer::Slow && sc.init_fail == InitFail::None && sc.err_at.is_none() && sc.sizes.len() >= 3 * (sc.queue + 1) {
+                        rep.count("slow_consumer_runs_longer_than_3x_queue");
+                    }
                     if facts.err_with_sets_in_flight {
                         rep.count("runs_where_reader_failed_with_sets_in_flight");
                     }
